@@ -9,55 +9,80 @@ from ..flow import flow, deps, deep_strip, strip, show, mentions, fold
 from .util import call_sites, exactly_once, closure_constructions, foreign
 
 
-def upvar_index(e):
-    """expression is field k of (deref of) the closure's self parameter -> k"""
-    e = deep_strip(e)
-    while e[0] in ("deref", "ref"):
-        e = deep_strip(e[1])
-    if e[0] == "field":
-        b = deep_strip(e[1])
-        while b[0] in ("deref", "ref"):
-            b = deep_strip(b[1])
-        if b == ("param", 1):
-            return e[3]
-    return None
+from .nf import NF
 
 
-def through_deref(m, e):
-    """follow Arc::deref / Deref::deref call results back to their argument"""
+def upvar_path(cl, e):
+    """expression is a (nested) capture of the closure: field k1 of (deref of) the closure's self parameter, possibly field k2 of that
+    capture when it is itself a captured closure, ... -> [k1, k2, ..]; Deref::deref calls (Arc) are looked through"""
+    path = []
     e = deep_strip(e)
-    seen = 0
-    while seen < 6:
-        seen += 1
+    for _ in range(12):
         while e[0] in ("deref", "ref"):
             e = deep_strip(e[1])
         if e[0] == "call" and (e[3] or "").endswith("Deref::deref"):
-            a = flow(m).term_arg(e[1], 0)
-            if len(a) == 1:
-                e = deep_strip(a[0]); continue
+            a = flow(cl).term_arg(e[1], 0)
+            if len(a) != 1:
+                return None
+            e = deep_strip(a[0]); continue
+        if e[0] == "field":
+            path.insert(0, e[3]); e = deep_strip(e[1]); continue
         break
+    if e == ("param", 1) and path:
+        return path
+    return None
+
+
+def resolve_capture(agg, path):
+    """the value captured under `path` in the closure aggregate built by the registering function: an expression over that function's
+    parameters, or None"""
+    e = agg
+    for k in path:
+        e = deep_strip(e)
+        while e[0] in ("ref", "deref"):
+            e = deep_strip(e[1])
+        if e[0] == "agg" and e[1][0] == "closure" and k < len(e[2]):
+            e = e[2][k]
+        else:
+            return None
+    e = deep_strip(e)
+    while e[0] in ("ref",):
+        e = deep_strip(e[1])
     return e
 
 
-def closure_and_parent(F, parent_def, idx=None):
-    """(closure instance, parent instance, construction (bb, si, rvalue)) for closures defined in `parent_def`"""
+def registered_actions(F, parent_def):
+    """[(closure instance, its normal form, closure aggregate expression, parent instance, parent normal form, registration (bb, term))]:
+    the closure value(s) the public function `parent_def` hands to the registry, judged in the parent's normal form (private helpers
+    that build the action are inlined)"""
     ps = [i for i in F.inst if i.local and i.body is not None and i.defp == parent_def]
     if len(ps) != 1:
         raise AnchorLost("expected one instance of %s" % parent_def)
-    p = ps[0]
+    p0 = ps[0]
+    p = NF(F, p0)
     out = []
-    for (bb, si, rv) in closure_constructions(p):
-        cl = [i for i in F.inst if i.kind == "closure" and i.defp == rv["def"] and i.body is not None]
-        if cl:
-            out.append((cl[0], p, (bb, si, rv)))
+    regs = [(bb, t) for bb, t in p.calls() if t.get("f") is not None and F.inst[t["f"]].defp.startswith("signal_hook_registry::register")]
+    for bb, t in regs:
+        for e in flow(p).term_arg(bb, 1):
+            e = deep_strip(e)
+            if e[0] == "agg" and e[1][0] == "closure":
+                cl = [i for i in F.inst if i.kind == "closure" and i.defp == e[1][1] and i.body is not None and
+                      (e[1][2] is None or e[1][2].replace("::<", "<") == ("{closure@%s}" % i.name).replace("::<", "<"))]
+                if not cl:
+                    cl = [i for i in F.inst if i.kind == "closure" and i.defp == e[1][1] and i.body is not None]
+                if cl:
+                    out.append((cl[0], NF(F, cl[0]), e, p0, p, (bb, t)))
     return out
 
 
-def captured_param(p, cons, k):
-    bb, si, rv = cons
-    ex = [deep_strip(e) for e in flow(p).operand(rv["ops"][k], (bb, si))]
-    if len(ex) == 1 and ex[0][0] == "param":
-        return ex[0][1]
+def capture_param(cl, agg, e):
+    """which parameter of the registering function does expression e (inside the action) denote, through captures? -> n or None"""
+    path = upvar_path(cl, e)
+    if path is None:
+        return None
+    r = resolve_capture(agg, path)
+    if r is not None and r[0] == "param":
+        return r[1]
     return None
 
 
@@ -67,11 +92,12 @@ def rule_a(ctx):
     ctx.rule(rid, "the flag action stores the constant `true` (resp. the registered value) into the caller's atomic, unconditionally, exactly once, "
                   "and is registered for the caller's signal through the checked entry point", floor=6)
     for parent, want in (("signal_hook::flag::register", ("const", 1)), ("signal_hook::flag::register_usize", ("param", 3))):
-        cps = closure_and_parent(F, parent)
-        if len(cps) != 1:
-            raise AnchorLost("%s: expected one action closure, found %d" % (parent, len(cps)))
-        cl, p, cons = cps[0]
-        ctx.fn(cl); ctx.fn(p)
+        acts = registered_actions(F, parent)
+        if len(acts) != 1:
+            raise AnchorLost("%s: expected one action closure, found %d" % (parent, len(acts)))
+        cl0, cl, agg, p0, p, (rbb, rt) = acts[0]
+        ctx.fn(cl0); ctx.fn(p0)
+        short = parent.split("::")[-1]
         ss = [s for s in sites(F, cl) if s.op not in ("load",)]
         okk = len(ss) == 1 and ss[0].op in ("store", "swap", "fetch_or")
         why = None
@@ -79,37 +105,39 @@ def rule_a(ctx):
             once, w = exactly_once(cl, [ss[0].bb])
             okk = once and not [t for _, t in cl.calls() if t.get("f") is not None and F.inst[t["f"]].local]
             why = w
-        ctx.check(okk, rid, "%s:one-store" % parent.split("::")[-1], "the action performs exactly one atomic store on every path and nothing else", cl.span,
+        ctx.check(okk, rid, "%s:one-store" % short, "the action performs exactly one atomic store on every path and nothing else", cl0.span,
                   why or [repr(s) for s in ss])
         if not okk:
             continue
         s = ss[0]
-        recv = through_deref(cl, s.recv[0])
-        k = upvar_index(recv)
-        tgt = captured_param(p, cons, k) if k is not None else None
-        ctx.check(tgt == 2, rid, "%s:target" % parent.split("::")[-1], "the store goes to the atomic the caller passed in", s.sp, {"receiver": show(s.recv[0]), "captured_from_param": tgt})
+        tgt = capture_param(cl, agg, s.recv[0]) if s.recv else None
+        ctx.check(tgt == 2, rid, "%s:target" % short, "the store goes to the atomic the caller passed in", s.sp, {"receiver": show(s.recv[0]) if s.recv else None, "captured_from_param": tgt})
         val = [deep_strip(e) for e in flow(cl).term_arg(s.bb, 1)]
         if want[0] == "const":
             okv = [fold(e) for e in val] == [want[1]]
+            if not okv and len(val) == 1:
+                # the constant may be captured (`register_store(signal, flag, true)`)
+                path = upvar_path(cl, val[0])
+                r = resolve_capture(agg, path) if path else None
+                okv = r is not None and fold(r) == want[1]
         elif s.op == "fetch_or":
             okv = False      # fetch_or cannot install an arbitrary registered value
         else:
-            kv = upvar_index(val[0]) if len(val) == 1 else None
-            okv = kv is not None and captured_param(p, cons, kv) == want[1]
-        ctx.check(okv, rid, "%s:value" % parent.split("::")[-1], "the stored value is %s" % ("the constant true" if want[0] == "const" else "the registered value"), s.sp,
+            okv = len(val) == 1 and capture_param(cl, agg, val[0]) == want[1]
+        ctx.check(okv, rid, "%s:value" % short, "the stored value is %s" % ("the constant true" if want[0] == "const" else "the registered value"), s.sp,
                   [show(e) for e in val])
         names = s.orders[0] if s.orders else []
         ctx.check(names and all(n in ("Relaxed", "Release", "SeqCst", "AcqRel", "Acquire") for n in names) and
-                  (s.op != "store" or all(n in ("Relaxed", "Release", "SeqCst") for n in names)), rid, "%s:ordering" % parent.split("::")[-1],
+                  (s.op != "store" or all(n in ("Relaxed", "Release", "SeqCst") for n in names)), rid, "%s:ordering" % short,
                   "constant, store-valid ordering %s" % names, s.sp, names)
-        _registered_for_param(ctx, rid, F, p, parent)
+        _registered_for_param(ctx, rid, F, p0, p, parent)
 
 
-def _registered_for_param(ctx, rid, F, p, parent):
+def _registered_for_param(ctx, rid, F, p0, p, parent):
     regs = [(bb, t) for bb, t in p.calls() if t.get("f") is not None and F.inst[t["f"]].defp == "signal_hook_registry::register"]
     okk = len(regs) == 1 and [deep_strip(e) for e in flow(p).term_arg(regs[0][0], 0)] == [("param", 1)]
     ctx.check(okk, rid, "%s:registered-for-signal" % parent.split("::")[-1], "the action is registered for the caller's signal through the checked `register`",
-              regs[0][1]["sp"] if regs else p.span, [F.inst[t["f"]].name for _, t in regs])
+              regs[0][1]["sp"] if regs else p0.span, [F.inst[t["f"]].name for _, t in regs])
 
 
 def rule_b(ctx):
@@ -129,46 +157,41 @@ def rule_b(ctx):
     for parent, callee_def, arg_param, cond_param, what in (
             ("signal_hook::flag::register_conditional_shutdown", "signal_hook::low_level::exit", 2, 3, "exit"),
             ("signal_hook::flag::register_conditional_default", "signal_hook::low_level::signal_details::emulate_default_handler", 1, 2, "default emulation")):
-        cps = [c for c in closure_and_parent(F, parent) if any(t.get("f") is not None and F.inst[t["f"]].defp == callee_def for _, t in c[0].calls())]
-        if len(cps) != 1:
+        acts = [a for a in registered_actions(F, parent) if any(t.get("f") is not None and F.inst[t["f"]].defp == callee_def for _, t in a[1].calls())]
+        if len(acts) != 1:
             raise AnchorLost("%s: action closure calling %s" % (parent, callee_def))
-        cl, p, cons = cps[0]
-        ctx.fn(cl); ctx.fn(p)
+        cl0, cl, agg, p0, p, (rbb, rt) = acts[0]
+        ctx.fn(cl0); ctx.fn(p0)
         short = parent.split("::")[-1]
         tc = [(bb, t) for bb, t in cl.calls() if t.get("f") is not None and F.inst[t["f"]].defp == callee_def]
         okk = len(tc) == 1
-        ctx.check(okk, rid, "%s:one-call" % short, "one %s call site in the action" % what, cl.span, len(tc))
+        ctx.check(okk, rid, "%s:one-call" % short, "one %s call site in the action" % what, cl0.span, len(tc))
         if not okk:
             continue
         bb, t = tc[0]
         a = [deep_strip(e) for e in flow(cl).term_arg(bb, 0)]
-        k = upvar_index(a[0]) if len(a) == 1 else None
-        ctx.check(k is not None and captured_param(p, cons, k) == arg_param, rid, "%s:argument" % short,
+        ap = capture_param(cl, agg, a[0]) if len(a) == 1 else None
+        ctx.check(ap == arg_param, rid, "%s:argument" % short,
                   "the argument is the registered %s" % ("status" if what == "exit" else "signal"), t["sp"], [show(e) for e in a])
         cond_ok = False; fresh = False
         for (ce, inf, sb) in facts_at(cl, bb):
             if ce[0] == "call" and re.search(r"Atomic::<bool>::load$", ce[3] or "") and truth(inf) is True:
-                r = through_deref(cl, [deep_strip(x) for x in flow(cl).term_arg(ce[1], 0)][0])
-                ku = upvar_index(r)
-                if ku is not None and captured_param(p, cons, ku) == cond_param:
+                r = [deep_strip(x) for x in flow(cl).term_arg(ce[1], 0)]
+                if r and capture_param(cl, agg, r[0]) == cond_param:
                     cond_ok = True
                 fresh = True
         ctx.check(cond_ok and fresh, rid, "%s:iff-condition" % short, "the call happens only on the true branch of a fresh load of the caller's condition", t["sp"],
                   [(show(c), i) for c, i, _ in facts_at(cl, bb)])
-        # and always when true: the false branch is the only way around it
         loads = [s for s in sites(F, cl) if s.op == "load"]
         okk2 = len(loads) == 1
         if okk2:
-            r = cfg.reachable_after(cl, loads[0].bb, avoid={bb}, unwind=False)
-            # reaching return while the load was true must be impossible: the only edges around are the false edge
-            sw = [b for b in range(cl.nblocks()) if cl.term(b)["k"] == "switch"]
+            sw = [b for b in range(cl.nblocks()) if cl.term(b)["k"] == "switch" and not cl.blocks[b].get("dead")]
             okk2 = len(sw) == 1
-        ctx.check(okk2, rid, "%s:single-branch" % short, "one load, one branch: nothing else decides whether to %s" % what, cl.span, None)
+        ctx.check(okk2, rid, "%s:single-branch" % short, "one load, one branch: nothing else decides whether to %s" % what, cl0.span, None)
         others = [F.inst[t2["f"]].name for _, t2 in cl.calls() if t2.get("f") is not None and F.inst[t2["f"]].local and F.inst[t2["f"]].defp != callee_def]
-        ctx.check(not others, rid, "%s:nothing-else" % short, "no other workspace call in the action", cl.span, others)
-        _registered_for_param(ctx, rid, F, p, parent)
+        ctx.check(not others, rid, "%s:nothing-else" % short, "no other workspace call in the action", cl0.span, others)
+        _registered_for_param(ctx, rid, F, p0, p, parent)
         if what != "exit":
-            # the signal emulated is the signal registered
             ctx.check(arg_param == 1, rid, "%s:same-signal" % short, "the emulated signal is the registered one", t["sp"], None)
 
 
